@@ -106,6 +106,46 @@ Theorem C17_rule_keys_are_parts_of_speech :
 Proof. exact wn_rule_keys_are_pos. Qed.
 Print Assumptions C17_rule_keys_are_parts_of_speech.
 
+Require Import WnV.Model.Spec WnV.Model.Tables WnV.Model.Query WnV.Model.Core WnV.Proofs.CoreLemmas WnV.Proofs.QueryFacts WnV.Proofs.SearchProofs.
+(* (6) A Wordnet using a lemmatizer (Morphy initialized or not: any table of proposals) finds, for each query, the union over the proposed (part of speech, forms) pairs of what each pair finds ([pass] = concatenation over the pairs), without duplicates, the pairs being the proposals compatible with the requested pos, or the query itself when nothing is proposed (proofs: Proofs/SearchProofs.v over Model/Core.v) *)
+Theorem C17_search_find_helper_form :
+  forall (D C : Type) (w : Wordnet) (cls : Wordnet -> D -> C) (key_eqb : C -> C -> bool)
+           (query : list str -> option str -> bool -> list D) (form : str)
+           (pos : option str),
+         _find_helper w cls key_eqb query (Some form) pos =
+         (let first := pass w cls query (fun f : str => f) (candidates w form pos) in
+          dedup key_eqb
+            (if negb (nonempty first) && wn_normalizer w
+             then pass w cls query (normalize w) (candidates w form pos)
+             else first)).
+Proof. exact (@find_helper_form). Qed.
+Print Assumptions C17_search_find_helper_form.
+
+Theorem C17_search_find_helper_nodup :
+  forall (D C : Type) (w : Wordnet) (cls : Wordnet -> D -> C) (key_eqb : C -> C -> bool)
+           (query : list str -> option str -> bool -> list D) (form : str)
+           (pos : option str), nodup_by key_eqb (_find_helper w cls key_eqb query (Some form) pos).
+Proof. exact (@find_helper_nodup). Qed.
+Print Assumptions C17_search_find_helper_nodup.
+
+Theorem C17_search_candidates_lemmatizer :
+  forall (w : Wordnet) (table : list (str * list (option str * list str)))
+           (form : str) (pos : option str) (p : option str * list str)
+           (ps : list (option str * list str)),
+         wn_lemmatizer w = Some table ->
+         lemmatize table form pos = p :: ps -> candidates w form pos = p :: ps.
+Proof. exact (@candidates_lemmatizer). Qed.
+Print Assumptions C17_search_candidates_lemmatizer.
+
+Theorem C17_search_candidates_lemmatizer_nothing :
+  forall (w : Wordnet) (table : list (str * list (option str * list str)))
+           (form : str) (pos : option str),
+         wn_lemmatizer w = Some table ->
+         lemmatize table form pos = [] -> candidates w form pos = [(pos, [form])].
+Proof. exact (@candidates_lemmatizer_nothing). Qed.
+Print Assumptions C17_search_candidates_lemmatizer_nothing.
+
+
 (* non-vacuity: a concrete inventory on which the premises are met *)
 Example C17_nonvacuous :
   let W := [ {| w_pos := sa "n"; w_lemma := sa "wolf"; w_others := [sa "wolves"] |};
